@@ -3,13 +3,16 @@ package props
 import (
 	"fmt"
 	"os"
+	"path/filepath"
 	"time"
 
 	badger "github.com/dgraph-io/badger/v4"
 
 	"verif/h/core"
+	"verif/h/drv"
 	"verif/h/gen"
 	"verif/h/hist"
+	"verif/h/model"
 )
 
 func genExpand(tok string, n int) []byte { return gen.Expand(tok, n) }
@@ -20,7 +23,7 @@ func C06(c *core.Ctx) {
 		"meta/expiry/discard combinations, static thresholds 32/64/1024 and VLogPercentile 0.5/0.99 (threshold moves while entries are in flight); values are " +
 		"6% of the writers keep their writes pending while ~80 other commits are acknowledged; read through Get->Value, Get->ValueCopy, iterator with prefetch and without, during the run, after it, and after close/re-open; full byte comparison " +
 		"by digest against the PRF-expanded token; plus a large-value family (values from 1 MiB-1 to 5 MiB next to small ones, ValueLogFileSize 8-16 MiB) read back " +
-		"after the run, after clean close/re-open (twice) and after a value-log GC pass; and a pinned-threshold family (VLogPercentile 0.5/0.9/0.99: a transaction or write " +
+		"after the run, after clean close/re-open (twice) and after a value-log GC pass; a through-GC family (driver: entries with user meta and far-future expiry share value-log files with overwritten junk until GC rewrites the files - inconclusive if it never does; value, meta and expiry compared after the rewrite, after further compactions and after re-open); and a pinned-threshold family (VLogPercentile 0.5/0.9/0.99: a transaction or write " +
 		"batch sets a size ladder, hundreds of other commits move the threshold up or down, then it commits; all values and metas read back after commit and after re-open); distinct = (option variant, size, read path) triples checked")
 	work := c.WorkDir()
 	defer os.RemoveAll(work)
@@ -109,6 +112,7 @@ func C06(c *core.Ctx) {
 	}
 	for i := 0; i < c.Pick(2, 8); i++ {
 		c06Large(c, work, i)
+		c06ThroughGC(c, work, i)
 	}
 	for i := 0; i < c.Pick(4, 24); i++ {
 		c06PinnedThreshold(c, work, i)
@@ -122,6 +126,141 @@ func C06(c *core.Ctx) {
 // c06Large: values around and above 1 MiB (the largest permitted ValueThreshold) mixed with small
 // ones, written sequentially; every value must read back identically after the run, after each of
 // two clean close/re-open cycles (the newest value-log file is replayed by Open) and after GC.
+
+// c06ThroughGC: entries with value-log values, user meta and (half of them) an expiry far in the
+// future share their value-log files with junk that is overwritten until GC picks the files; after
+// the rewrite every attribute must read back as written, through Get and through an iterator, also
+// after further compactions and a re-open.
+func c06ThroughGC(c *core.Ctx, work string, idx int) {
+	r := c.Rand(fmt.Sprintf("c06-gc-%d", idx))
+	dir := filepath.Join(work, fmt.Sprintf("gc%d", idx))
+	_ = os.MkdirAll(dir, 0o755)
+	defer os.RemoveAll(dir)
+	o, oname := drvOptions(dir, []int{0, 2, 5}[idx%3])
+	o.MemTableSize = 1 << 20
+	o.ValueThreshold = 32
+	o.ValueLogMaxEntries = 24
+	o.MaxLevels = 3
+	o.NumLevelZeroTables = 1
+	db, err := drv.Open(o, false)
+	if err != nil {
+		c.Inconclusive("open: " + err.Error())
+		return
+	}
+	w := &drv.World{C: c, Sig: "C06|through-gc", DB: db, Opt: o, M: model.New(), R: r}
+	defer func() { _ = w.DB.Close() }()
+	type rec struct {
+		val  []byte
+		meta byte
+		exp  uint64
+	}
+	farFuture := uint64(time.Now().Unix()) + 400000000
+	want := map[string]rec{}
+	nKeep := 6 + r.Intn(10)
+	for i := 0; i < nKeep; i++ {
+		k := fmt.Sprintf("keep%02d", i)
+		rc := rec{val: genExpand(fmt.Sprintf("G%d.%d", idx, i), 40+r.Intn(400)), meta: byte(1 + i)}
+		if i%2 == 0 {
+			rc.exp = farFuture + uint64(i)
+		}
+		e := badger.NewEntry([]byte(k), rc.val).WithMeta(rc.meta)
+		e.ExpiresAt = rc.exp
+		if err := w.DB.Update(func(txn *badger.Txn) error { return txn.SetEntry(e) }); err != nil {
+			c.Inconclusive("write: " + err.Error())
+			return
+		}
+		want[k] = rc
+		// junk next to it in the same value-log file
+		_, _ = w.Commit([]drv.WriteSpec{{Key: []byte(fmt.Sprintf("junk%02d", i%18)), Len: 2000}})
+	}
+	check := func(stage string) bool {
+		ok := true
+		err := w.DB.View(func(txn *badger.Txn) error {
+			cmp := func(path, k string, it *badger.Item) {
+				rc := want[k]
+				v, err := it.ValueCopy(nil)
+				c.Count("gc.attributes_checked", 1)
+				if err != nil || string(v) != string(rc.val) || it.UserMeta() != rc.meta || it.ExpiresAt() != rc.exp {
+					ok = false
+					c.Violation("C06|through-gc|"+stage+"|"+path, fmt.Sprintf("key %s: %d bytes (err=%v, equal=%v), user meta %d, expiry %d; written: %d bytes, user meta %d, expiry %d", k, len(v), err, string(v) == string(rc.val), it.UserMeta(), it.ExpiresAt(), len(rc.val), rc.meta, rc.exp),
+						map[string]any{"options": oname, "steps": w.Steps})
+				}
+			}
+			for k := range want {
+				it, err := txn.Get([]byte(k))
+				if err != nil {
+					return fmt.Errorf("Get(%s): %w", k, err)
+				}
+				cmp("get", k, it)
+			}
+			io := badger.DefaultIteratorOptions
+			io.Prefix = []byte("keep")
+			itr := txn.NewIterator(io)
+			defer itr.Close()
+			n := 0
+			for itr.Rewind(); itr.Valid(); itr.Next() {
+				n++
+				cmp("iterator", string(itr.Item().KeyCopy(nil)), itr.Item())
+			}
+			if n != len(want) {
+				return fmt.Errorf("iterator yields %d of %d keys", n, len(want))
+			}
+			return nil
+		})
+		if err != nil {
+			ok = false
+			c.Violation("C06|through-gc|"+stage+"|read-error", err.Error(), map[string]any{"options": oname, "steps": w.Steps})
+		}
+		return ok
+	}
+	// generations of junk: the oldest ones are discarded by compaction, which gives GC its statistics
+	for round := 0; round < 2; round++ {
+		for i := 0; i < 18; i++ {
+			_, _ = w.Commit([]drv.WriteSpec{{Key: []byte(fmt.Sprintf("junk%02d", i)), Len: 2000}})
+		}
+		w.Flush()
+		w.AdvanceWatermark()
+		w.CompactForce(0, 1)
+	}
+	if !check("before-gc") {
+		return
+	}
+	rewrites := 0
+	for i := 0; i < 4; i++ {
+		if w.GC(0.001) {
+			rewrites++
+		}
+	}
+	if rewrites == 0 {
+		c.Inconclusive("through-gc: GC did not rewrite a file")
+		return
+	}
+	c.Eval(1)
+	c.Count("gc.rewrites_with_live_attributed_entries", int64(rewrites))
+	if !check("after-gc") {
+		return
+	}
+	w.AdvanceWatermark()
+	w.Flush()
+	for l := 0; l < o.MaxLevels-1; l++ {
+		w.CompactForce(l, 1)
+	}
+	if !check("after-gc-and-compaction") {
+		return
+	}
+	if err := w.DB.Close(); err != nil {
+		c.Violation("C06|through-gc|close", err.Error(), nil)
+		return
+	}
+	if w.DB, err = drv.Open(o, false); err != nil {
+		c.Violation("C06|through-gc|reopen", err.Error(), nil)
+		w.DB, _ = drv.Open(o, false)
+		return
+	}
+	check("after-reopen")
+	c.Distinct(fmt.Sprintf("through-gc|%s", oname))
+}
+
 func c06Large(c *core.Ctx, work string, idx int) {
 	r := c.Rand(fmt.Sprintf("c06-large-%d", idx))
 	dir := fmt.Sprintf("%s/large%d", work, idx)
@@ -138,11 +277,26 @@ func c06Large(c *core.Ctx, work string, idx int) {
 	}
 	sizes := []int{100, 1<<20 - 1, 1 << 20, 1<<20 + 1, 40, 2 << 20, 3000, 3<<20 + 17, 0, 5 << 20, 64}
 	want := map[string][]byte{}
+	type attr struct {
+		meta byte
+		exp  uint64
+	}
+	wantAttr := map[string]attr{}
+	farFuture := uint64(time.Now().Unix()) + 400000000 // > 12 years ahead: never reached by a run
 	n := 0
 	write := func(k string, size int) bool {
 		n++
 		v := genExpand(fmt.Sprintf("L%d.%d", idx, n), size)
-		if err := db.Update(func(txn *badger.Txn) error { return txn.Set([]byte(k), v) }); err != nil {
+		// user meta on every entry, an expiry far in the future on every second one: both must come
+		// back unchanged wherever the value is stored and after GC moved it
+		a := attr{meta: byte(n)}
+		if n%2 == 0 {
+			a.exp = farFuture + uint64(n)
+		}
+		e := badger.NewEntry([]byte(k), v).WithMeta(a.meta)
+		e.ExpiresAt = a.exp
+		wantAttr[k] = a
+		if err := db.Update(func(txn *badger.Txn) error { return txn.SetEntry(e) }); err != nil {
 			c.Violation("C06|large|commit-error", fmt.Sprintf("Set of a %d-byte value: %v", size, err), ov.Name)
 			return false
 		}
@@ -161,6 +315,9 @@ func c06Large(c *core.Ctx, work string, idx int) {
 					return err
 				}
 				c.Count("large.values_checked", 1)
+				if a := wantAttr[k]; it.UserMeta() != a.meta || it.ExpiresAt() != a.exp {
+					c.Violation("C06|large|"+stage+"|attributes-differ", fmt.Sprintf("key %s (%d bytes): user meta %d expiry %d, written with user meta %d expiry %d", k, len(v), it.UserMeta(), it.ExpiresAt(), a.meta, a.exp), map[string]any{"options": ov.Name, "stage": stage})
+				}
 				if string(got) != string(v) {
 					c.Violation("C06|large|"+stage+"|value-differs", fmt.Sprintf("key %s: wrote %d bytes, read %d bytes (equal prefix %d)", k, len(v), len(got), commonPrefix(got, v)), map[string]any{"options": ov.Name, "stage": stage})
 				}
